@@ -269,7 +269,8 @@ def inject(r, prog, defect, where=None):
         ops.insert(i, {"op": "stratify", "kind": "plain", "name": "uneq", "strata": ["a", "b"], "comps": [names[0]]})
         j = r.randint(i + 1, last_flowish + 2)
         k = r.choice(["transition", "inf_freq", "absolute"])
-        ops.insert(j, {"op": "flow", "kind": k, "name": "uneqflow", "param": {"c": "1/8"}, "src": names[0], "dst": names[1]}); return ops, j
+        a_, b_ = (names[0], names[1]) if r.random() < 0.5 else (names[1], names[0])     # more sources than destinations, or the other way round
+        ops.insert(j, {"op": "flow", "kind": k, "name": "uneqflow", "param": {"c": "1/8"}, "src": a_, "dst": b_}); return ops, j
     if defect == "expected_count":
         i = pos_after_init()
         k = r.choice(["death", "import", "transition"])
